@@ -1,13 +1,13 @@
 package main
 
 import (
-	"strconv"
 	"fmt"
 	"go/ast"
 	"go/constant"
 	"go/token"
 	"go/types"
 	"sort"
+	"strconv"
 	"strings"
 
 	"golang.org/x/tools/go/ssa"
@@ -70,27 +70,27 @@ func keyMatches(key, prefix string) bool {
 // ---------- per-function verification context ----------
 
 type FnCtx struct {
-	eng      *Engine
-	fn       *ssa.Function
-	fc       *FuncContract
-	mode     string
-	decls    []string
-	declared map[string]bool
-	heapSort map[string]string
-	nfresh   int
-	obs      []*Obligation
-	notes    map[string]bool
-	npaths   int
-	inlined  map[string]bool
-	trusted  map[string]bool
-	defaults map[string]bool
-	label    string // name used in obligation names
-	aborted  string
-	divw     map[string]string
-	entryNow string
+	eng           *Engine
+	fn            *ssa.Function
+	fc            *FuncContract
+	mode          string
+	decls         []string
+	declared      map[string]bool
+	heapSort      map[string]string
+	nfresh        int
+	obs           []*Obligation
+	notes         map[string]bool
+	npaths        int
+	inlined       map[string]bool
+	trusted       map[string]bool
+	defaults      map[string]bool
+	label         string // name used in obligation names
+	aborted       string
+	divw          map[string]string
+	entryNow      string
 	usedContracts map[string]bool // Helios callee contracts applied -> whether that callee is itself verified for some property
-	extraEnv map[string]Val
-	ghostRet *Val
+	extraEnv      map[string]Val
+	ghostRet      *Val
 	curLoopFrame  []*frame
 	paramVals     map[string]Val // symbolic entry values of the parameters (replay rebuilds inputs from them)
 	curLoopBlocks map[*ssa.BasicBlock]bool
@@ -205,8 +205,8 @@ type frame struct {
 	entered  map[*ssa.BasicBlock]*loopEntry
 	recov    *Val // value recover() returns in this frame (set while running defers after a panic)
 	inlineOf *ssa.CallCommon
-	fc       *FuncContract // contract being verified (top frame only)
-	results  []Val         // for named results via recover block
+	fc       *FuncContract  // contract being verified (top frame only)
+	results  []Val          // for named results via recover block
 	named    map[string]Val // source variable name -> latest value on this path (from DebugRef)
 }
 
@@ -232,7 +232,7 @@ type Path struct {
 	allocs   []string
 	dead     bool
 	fnret    map[string]Val // last value returned by a call through a function-valued parameter
-	lastAcq  *HeapView // heap right after the latest write-lock acquisition in the function under verification
+	lastAcq  *HeapView      // heap right after the latest write-lock acquisition in the function under verification
 	bases    []string
 	acq      map[string]HeapView // heap at the acquisition of a monitored lock (for two-state guarantees)
 }
